@@ -174,11 +174,12 @@ Section Printer.
     else Err ParseErr.
 
   Definition insert_str (v : value) : PRs :=
+    let+ w := with_prefix v [10; 10] in
     let+ it := src (get "insert_type" v) in
     let+ tn := src (get "table_name" v) in
     let+ part := if fnone "partition" v then Ok [] else let+ s := src (get "partition" v) in Ok (s ++ S " ") in
     let+ cols := if fnone "columns" v then Ok [] else let+ cs := srcs (ftuple "columns" v) in Ok (S "(" ++ join (S ", ") cs ++ S ") ") in
-    Ok (it ++ S " " ++ keyword_if (d_eqb d D_HIVE) "TABLE " ++ tn ++ S " " ++ part ++ cols).
+    Ok (w ++ it ++ S " " ++ keyword_if (d_eqb d D_HIVE) "TABLE " ++ tn ++ S " " ++ part ++ cols).
 
   Definition clauses_of (v : value) : list value :=
     let common := [get "from_clause" v] ++ ftuple "lateral_view_clauses" v ++ ftuple "join_clauses" v
